@@ -156,7 +156,7 @@ def gen_gm(seed, tier, focus):
     return {"engine": "gmsim", "seed": seed, "focus": focus,
             "cfg": {"tz": ch.pick("config", "tz", ["UTC", "UTC", "XST8", "XST-8", "XST-5:30"]),
                     "nservers": nservers, "ngm": ngm, "servers": servers, "clients": clients, "k": k, "n": n, "happy": 1,
-                    "net": {"threads": ch.pick("config", "threads", ["sync", "sync", "async"]), "lat_profile": ch.pick("config", "lat", ["uniform", "heavy", "fifo"]), "jitter": 0.3}},
+                    "net": {"threads": ch.pick("config", "threads", ["sync", "sync", "async"]), "batch": ch.pick("config", "batch", [0, 0, 0, 0.001, 0.02, 0.3]), "lat_profile": ch.pick("config", "lat", ["uniform", "heavy", "fifo"]), "jitter": 0.3}},
             "ops": ops, "faults": []}
 
 
